@@ -4,7 +4,7 @@ CHECK = dict(
     property='C04', level='fault_enumeration',
     families=[('crashfwd', 1.0)],
     budget=dict(quick=50, thorough=900), max_runs=dict(quick=200_000, thorough=5_000_000),
-    rule=('each evaluation = one simulated run in which the server process is killed at the (skip+1)-th '
+    rule=('in 12 % of the crash slots an allocation fails (MemoryError) while a write batch is being assembled and the process is killed 1-4 durable operations later or exits on the exception; each evaluation = one simulated run in which the server process is killed at the (skip+1)-th '
           'durable operation of a flush (each meta file write incl. torn prefixes 0 / half / len-1, each '
           'history / UTXO batch commit, each direct put), at any durable operation (block file writes, '
           'removals) or during the restart\'s own clean-up; history-only and full flushes at '
@@ -18,7 +18,7 @@ CHECK = dict(
           'reference pass counts the matching durable operations of one generated run, then the same seed is '
           're-run once per position (up to 160, torn-write variants cycled). non-trivial = a crash fired and an audit completed; '
           'distinct = distinct interleaving signature incl. the crash operation'),
-    assumptions=['SimDB/SimFS stand in for LevelDB and the file system (batches atomic, completed '
+    assumptions=['a simulated plyvel module (under the real LevelDB class of electrumx.server.storage) and SimFS stand in for the LevelDB engine and the file system (batches atomic, completed '
                  'operations durable: process death, not power loss)',
                  'the model bitcoind serves only valid chains; fork depth within the property\'s '
                  'quantifier (reorg limit counted from the highest height the daemon reported; chain '
